@@ -113,6 +113,21 @@ pub fn file(ctx: &Ctx) -> Stats {
         let k = rng.usize(1, kmax);
         let nrec = rng.usize(1, 50);
         let mut recs = gen_records(&mut rng, nrec, k, None, 120, 0);
+        if idx % 25 == 3 {
+            // a column count that is exactly a power of ten (or one off): number-formatting widths of the counts mode,
+            // 6-decimal edges of the normalised mode
+            let j = rng.usize(1, 5);
+            let c = 10usize.pow(j as u32) + [0usize, 0, 1][rng.below(3) as usize] - if rng.chance(1, 4) { 1 } else { 0 };
+            let b = *rng.pick(b"ACGT");
+            let at = rng.usize(0, recs.len() - 1);
+            let mut seq = vec![b; c + k - 1];
+            if rng.chance(1, 2) {
+                // plus a few other windows so that the normalised value is not exactly 1
+                seq.extend_from_slice(b"NACGTTGCA");
+            }
+            recs[at].seq = seq;
+            st.class("column count 10^j (+-1)");
+        }
         // invariance at file level: append the reverse complement, the case-swapped and the T->U variant of one
         // record; their rows must be byte-identical to that record's row
         let src = rng.usize(0, recs.len() - 1);
